@@ -28,7 +28,9 @@ RULE = (
     "quotes, all-0x00/0xFF byte arrays, full-length arrays); five independent campaigns check one route each: "
     "from_buffer_copy + copy (equal, storage-disjoint in both directions), from_dict(to_dict()), from_json(to_json(minify in "
     "{F,T})), dict/JSON with strings spelled as character lists, and Message(header, data) through Message.to_json/"
-    "from_json/to_dict/copy with header version 0 or the type hash, plus refusal of a non-zero foreign version. "
+    "from_json/to_dict/copy with every header field drawn independently over its domain (num_data_bytes in {0, type size, "
+    "other, negative}, not tied to the data; msg_type fixed to the class id; version 0 or the type hash), plus refusal of a "
+    "non-zero foreign version. "
     "Non-trivial = an instance with >=1 non-default field among {NaN, -0.0, extreme, denormal, control char/quote, "
     "max-length string, all-0xFF bytes, field inside a struct-array element}; distinct = (route, class source, set of "
     "(special class, field kind))."
@@ -75,6 +77,8 @@ def _same(route: str, what: str, cls: type, got, want: bytes, trace: dict):
     if g != want:
         off = next((i for i, (a, b) in enumerate(zip(g, want)) if a != b), min(len(g), len(want)))
         where = _locate(cls, off)
+        if not any(g) and sum(1 for x in want if x) > 1:
+            where = "whole-object-zero"  # the content was dropped as a whole, not one field mis-converted
         raise Violation(f"{route}/bytes-differ/{where}",
                         f"{what}: {cls.__name__} differs at byte {off} ({where}): got {g[off:off + 8].hex()} expected {want[off:off + 8].hex()}",
                         trace)
@@ -229,10 +233,10 @@ def build_instance(trace: dict, res: Result):
 
 def _set_header(trace: dict, cls: type, version: int):
     h = MessageHeader()
+    h.num_data_bytes = ctypes.sizeof(cls)  # default of traces that do not draw it
     for name, v in trace.get("hdr", {}).items():
-        setattr(h, name, dec(v))
-    h.msg_type = cls.type_id
-    h.num_data_bytes = ctypes.sizeof(cls)
+        setattr(h, name, dec(v))  # every header field is a free value of its own domain (num_data_bytes too)
+    h.msg_type = cls.type_id  # the one field that must name the class
     h.version = version
     return h
 
@@ -319,6 +323,14 @@ def run_case(trace: dict, res: Result):
             raise Violation(f"{route}/source-modified", f"{name}: the round trips modified the source message", trace)
     else:
         raise HarnessError(route)
+    if route == "message":
+        ndb = dec(trace["hdr"]["num_data_bytes"]) if "num_data_bytes" in trace.get("hdr", {}) else None
+        size = ctypes.sizeof(cls)
+        res.count("message:num_data_bytes:" + ("default" if ndb is None else "zero" if ndb == 0 else "type-size" if ndb == size
+                                                 else "negative" if ndb < 0 else "other"))
+        if ndb == 0 and any(b):
+            res.count("message:num_data_bytes-zero-with-nonzero-data")
+            marks = set(marks) | {("hdr-num_data_bytes-0", "data-nonzero")}
     if marks:
         res.shape(route, msgs.ref_class_kind(trace["cls"]), tuple(sorted(marks)))
         res.count("nontrivial")
@@ -354,15 +366,20 @@ def _with_nan(draw, base):
     return {tag: elems}
 
 
-_HDR_FIELDS = [fi for fi in msgs.fields_of(MessageHeader) if fi.name not in ("msg_type", "reserved", "num_data_bytes")]
+_HDR_FIELDS = [fi for fi in msgs.fields_of(MessageHeader) if fi.name not in ("msg_type", "reserved")]
 
 
 @st.composite
-def _header(draw):
+def _header(draw, size: int):
+    """Every header field except msg_type / version drawn independently over its full domain; num_data_bytes is NOT kept
+    consistent with the data (0, the type size, other values, negative)."""
     out = {}
-    for _ in range(draw(st.integers(0, 4))):
-        fi = draw(st.sampled_from(_HDR_FIELDS))
-        out[fi.name] = draw(_value(fi))
+    for fi in _HDR_FIELDS:
+        if fi.name == "num_data_bytes":
+            out[fi.name] = draw(st.one_of(st.just(0), st.just(0), st.just(size), st.sampled_from([1, -1, size + 1, 2 ** 31 - 1, -(2 ** 31)]),
+                                          _value(fi)))
+        elif draw(st.integers(0, 2)) > 0:
+            out[fi.name] = draw(_value(fi))
     return out
 
 
@@ -396,7 +413,7 @@ def case(draw, route: str):
             sets.append(step)
     t = {"sub": route, "cls": ref, "sets": sets}
     if route == "message":
-        t["hdr"] = draw(_header())
+        t["hdr"] = draw(_header(ctypes.sizeof(cls)))
         t["ver"] = draw(st.booleans())
         t["badver"] = draw(st.one_of(st.sampled_from([1, 2 ** 32 - 1, 2 ** 31]), st.integers(1, 2 ** 32 - 1)))
     return t
